@@ -515,6 +515,75 @@ def diffRefStep (E : Env DKey DVal DKey) (sys : Sys DKey DVal DKey) (i o : Nat) 
         | .panic c s => .panic c { sys0 with w := sys0.w.mergeUnit s.w }
         | .ok l s3 => .ok (RV.castU (.list l)) { sys0 with w := sys0.w.mergeUnit s3.w }
 
+
+/-! ### `nth(k)` and `last()` in iterator scripts
+
+Script letters `t<digit>` and `z`.  For the borrowing iterators these are std's provided methods
+(`advance_by` + `next`, resp. a fold over `next`): the script is rewritten into `next` steps of
+the model and the results std discards are removed from the output.  For the lazy set operations
+`last()` is std's `fold`-based default, so it goes through the model's `fold` (the crate overrides
+`fold` there) and the last visited element is reported. -/
+inductive OutAct where
+  | keep | drop | lastOfFold
+
+/-- rewrite a script; `len` = entries of the container (only needed for `z` on a borrowing
+    iterator), `adv` = `next` steps emitted so far. -/
+def rewriteScript (isAlg : Bool) (len : Nat) : List Char → Nat → List Char × List OutAct
+  | [], _ => ([], [])
+  | 't' :: d :: cs, adv =>
+    let k := d.toNat - '0'.toNat
+    let (r, a) := rewriteScript isAlg len cs (adv + k + 1)
+    (List.replicate (k + 1) 'n' ++ r, List.replicate k OutAct.drop ++ [OutAct.keep] ++ a)
+  | 'z' :: _, adv =>
+    if isAlg then (['f'], [OutAct.lastOfFold])
+    else
+      let rem := len - min adv len
+      let n := max rem 1
+      (List.replicate n 'n', List.replicate (n - 1) OutAct.drop ++ [OutAct.keep])
+  | 'c' :: cs, adv =>
+    let (r, a) := rewriteScript isAlg len cs adv
+    ('c' :: r, a)
+  | 'n' :: cs, adv =>
+    let (r, a) := rewriteScript isAlg len cs (adv + 1)
+    ('n' :: r, OutAct.keep :: a)
+  | c :: cs, adv =>
+    let (r, a) := rewriteScript isAlg len cs adv
+    (c :: r, OutAct.keep :: a)
+
+def applyActs : List OutAct → List (RV DKey DVal) → List (RV DKey DVal)
+  | [], rest => rest                      -- the run-out of the clones follows
+  | _, [] => []
+  | .keep :: as, x :: xs => x :: applyActs as xs
+  | .drop :: as, _ :: xs => applyActs as xs
+  | .lastOfFold :: as, x :: xs =>
+    (match x with
+     | .list l => (match l.getLast? with
+        | some (.oref o s y) => RV.some (.oref o s y)
+        | some y => RV.some y
+        | none => RV.none)
+     | y => y) :: applyActs as xs
+
+def regLen (sys : Sys DKey DVal DKey) (reg : String) : Nat :=
+  match reg with
+  | "m0" => (sys.maps 0).len | "m1" => (sys.maps 1).len
+  | "s0" | "u0" => (sys.sets 0).len | "s1" | "u1" => (sys.sets 1).len
+  | _ => 0
+
+def hasSugar (script : String) : Bool := script.toList.any fun c => c == 't' || c == 'z'
+
+/-- rewrite the script token of `iter` / `alg` lines. -/
+def desugarScript (sys : Sys DKey DVal DKey) (toks : List String) : List String × Option (List OutAct) :=
+  let go (pre : List String) (reg script : String) (isAlg : Bool) : List String × Option (List OutAct) :=
+    if hasSugar script then
+      let (r, a) := rewriteScript isAlg (regLen sys reg) script.toList 0
+      (pre ++ [String.ofList r], some a)
+    else (toks, none)
+  match toks with
+  | [reg, "iter", kind, n, script] => go [reg, "iter", kind, n] reg script false
+  | [reg, "iter", script] => go [reg, "iter"] reg script false
+  | [reg, "alg", kind, o, script] => go [reg, "alg", kind, o] reg script true
+  | _ => (toks, none)
+
 structure CaseCfg where
   capM : Nat → Nat
   capS : Nat → Nat
@@ -571,6 +640,11 @@ partial def loop (profile : Profile) (h : IO.FS.Stream) (out : IO.FS.Stream) (st
       loop profile h out st
   | _ =>
     let (toks, sg) := desugar toks
+    let (toks, acts) := desugarScript st.sys toks
+    let fixActs (o : Out DKey DVal DKey) : Out DKey DVal DKey :=
+      match acts, o.ret with
+      | some a, .list l => { o with ret := .list (applyActs a l) }
+      | _, _ => o
     -- operations composed in the driver
     let customOut : Option (Sys DKey DVal DKey × Out DKey DVal DKey) :=
       match toks with
@@ -586,7 +660,7 @@ partial def loop (profile : Profile) (h : IO.FS.Stream) (out : IO.FS.Stream) (st
       | [reg, "defaults"] => (parseReg? reg).map fun (isMap, i) => defaultsStep st.env st.sys isMap i
       | _ => none
     if let some (sys', o) := customOut then
-      out.putStrLn (outLine sys' o false)
+      out.putStrLn (outLine sys' (fixActs o) false)
       loop profile h out { st with sys := sys' }
     else
     match parseOp? toks with
@@ -596,7 +670,7 @@ partial def loop (profile : Profile) (h : IO.FS.Stream) (out : IO.FS.Stream) (st
     | some op =>
       let (sys', o) := step st.env render st.sys op
       let isUnit := match op with | .map _ _ => false | _ => true
-      let o := applySugar sg isUnit o
+      let o := fixActs (applySugar sg isUnit o)
       let isEnd := match op with | .endCase => true | _ => false
       out.putStrLn (outLine sys' o isEnd)
       loop profile h out { st with sys := sys' }
